@@ -266,6 +266,9 @@ def corpus():
     c.append(dict(claim="read", layout="PMS", lines=["#BPM 120", "#00111:1"]))
     c.append(dict(claim="read", layout="PMS", lines=["#BPM 120", "#"]))
     c.append(dict(claim="read", layout="PMS", lines=["#bpm 120"]))
+    # D43 (fixed): no #TITLE / #ARTIST / #PLAYLEVEL -> empty bytes, not str
+    c.append(dict(claim="read", layout="BMS", lines=["#BPM 150", "#GENRE x", "#00111:0101"]))
+    c.append(dict(claim="read", layout="BMS", lines=["#TITLE only title", "#BPM 150", "#00111:0101"]))
     c.append(dict(claim="read", layout="PMS", lines=["#BPM 120", "#BPM 150", "#00111:01", "#00211:01"]))
     c.append(dict(claim="read", layout="BME", lines=["#BPM 120", "#LNOBJ ZZ", "#00111:01ZZ02ZZ", "#00112:ZZ"]))
     return c
@@ -330,10 +333,11 @@ def err_class(e):
 
 
 def hx(b):
+    """bytes -> hex; a `str` where bytes are expected is kept visible (D43: the converters call .decode)"""
     if b is None:
         return None
     if isinstance(b, str):
-        b = b.encode("shift_jis")
+        return "str:" + b
     return bytes(b).hex()
 
 
@@ -441,8 +445,8 @@ def none_empty(x):
 
 def header_equal(impl, h):
     """impl dict vs a Lean `Header` json"""
-    ok = (impl["title"] == none_empty(h["title"]) and impl["artist"] == none_empty(h["artist"])
-          and impl["version"] == none_empty(h["version"]) and impl["ln_end"] == h["ln_end"])
+    ok = (impl["title"] == h["title"] and impl["artist"] == h["artist"]
+          and impl["version"] == h["version"] and impl["ln_end"] == h["ln_end"])
     ok = ok and impl["samples"] == {k: v for k, v in h["samples"]}
     ok = ok and impl["misc"] == {k: v for k, v in h["misc"]}
     ex = {k: F(v) for k, v in h["exbpms"]}
